@@ -170,6 +170,10 @@ class Body:
 
 class BodyWithLen(Body):
     def __len__(self):
+        if self.run.prog.get("len_raises"):
+            # an iterable that has __len__ but cannot answer it (a delegating proxy around a generator)
+            self.run.log.add("len-raised", self.run.rid)
+            raise TypeError("object of type 'generator' has no len() [app-failure-len-%s]" % (self.run.rid,))
         return self._len
 
 
